@@ -330,6 +330,7 @@ func runC12(c *Ctx) {
 		_, del := deliveryClosures(p, f)
 		if c.NeedFunc("R12.3", del, "WatchAll delivery goroutine") {
 			n, ok := 0, true
+			why := ""
 
 			for _, g := range append([]*ssa.Function{del}, AllClosures(del)...) {
 				for _, in := range Find(g, StoreToField("Event", "Bookmark")) {
@@ -338,11 +339,17 @@ func runC12(c *Ctx) {
 					call, _ := CallOf(in.(*ssa.Store).Val)
 					if call == nil || p.CalleeName(call) != pkgInmem+".encodeBookmark" || p.LinOf(CallArgs(call)[0], al).String() != "+1*P-1" {
 						ok = false
+
+						if call != nil {
+							why += FuncName(g) + ": " + p.LinOf(CallArgs(call)[0], al).String() + "; "
+						} else {
+							why += FuncName(g) + ": " + p.Desc(in.(*ssa.Store).Val) + "; "
+						}
 					}
 				}
 			}
 
-			c.Check(ok && n == 3, "R12.3", FuncName(del)+" :: Bootstrapped/Noop events carry encodeBookmark(pos − 1)", fpos(del), fmt.Sprintf("%d bookmark stores", n), fmt.Sprintf("%d bookmark stores, shape ok=%v", n, ok))
+			c.Check(ok && n >= 1, "R12.3", FuncName(del)+" :: Bootstrapped/Noop events carry encodeBookmark(pos − 1)", fpos(del), fmt.Sprintf("%d bookmark stores", n), fmt.Sprintf("%d bookmark stores, shape ok=%v %s", n, ok, why))
 		}
 	}
 }
